@@ -393,10 +393,17 @@ class DifferenceUnits(Contract):
         s1, s2 = self._s(a)
         if a.unit2 is None:
             return temp, z3.BoolVal(False), z3.BoolVal(False), z3.BoolVal(False)
+        # two scales without a zero point (K - mK, K - R): an ordinary difference, never refused
+        temp = z3.And(temp, z3.Not(self.both_zero(a)))
         differ = z3.Not(self._eq12(it, a))
         keep1 = z3.And(z3.Contains(s2, s1), z3.PrefixOf(z3.StringVal("delta_"), s2))
         take2 = z3.And(z3.Not(keep1), z3.Contains(s1, s2), z3.PrefixOf(z3.StringVal("delta_"), s1))
         return temp, differ, keep1, take2
+
+    def both_zero(self, a):
+        if a.unit2 is None:
+            return z3.BoolVal(False)
+        return z3.And(S.offset(a.unit1) == 0, S.offset(a.unit2) == 0)
 
     def raises(self, it, a):
         temp, differ, keep1, take2 = self.cases(it, a)
@@ -410,6 +417,9 @@ class DifferenceUnits(Contract):
 
     def result(self, it, a):
         temp, differ, keep1, take2 = self.cases(it, a)
+        if a.unit2 is not None and it.branch(z3.And(is_ref(S.dim(a.unit1), "temperature"),
+                                                   self.both_zero(a))):
+            return (1, a.unit1)
         if not it.branch(temp):
             return PreserveUnits().apply(it, {"unit1": a.unit1, "unit2": a.unit2})
         if it.branch(differ):
@@ -437,6 +447,10 @@ class DifferenceUnits(Contract):
         out.append(("difference - difference of one scale keeps the unit",
                     z3.Implies(z3.And(temp, z3.Not(differ), S.offset(a.unit1) == 0),
                                lab is a.unit1)))
+        if a.unit2 is not None:
+            out.append(("difference - difference (no zero points) is labelled with the left unit",
+                        z3.Implies(z3.And(is_ref(S.dim(a.unit1), "temperature"), self.both_zero(a)),
+                                   lab is a.unit1)))
         if a.unit2 is not None:
             out.append(("point - its own delta unit keeps the point scale",
                         z3.Implies(z3.And(temp, differ, keep1), lab is a.unit1)))
